@@ -46,7 +46,20 @@ protected:
         ++reads;
         uint32_t v = pos < tape.size() ? tape[pos] : 0;
         ++pos;
-        return v % n;
+        // rapidcheck's integers are far from uniform modulo small radices (many tiny values and all-ones patterns):
+        // mix every non-zero value so that residues are uniform; 0 stays 0, the simplest choice, so shrinking still works.
+        if (v != 0) {
+            uint64_t x = v;
+            x ^= x >> 16;
+            x *= 0x7feb352dULL;
+            x &= 0xffffffffULL;
+            x ^= x >> 15;
+            x *= 0x846ca68bULL;
+            x &= 0xffffffffULL;
+            x ^= x >> 16;
+            return x % n;
+        }
+        return 0;
     }
 };
 
